@@ -4,31 +4,16 @@
 // Codecs are assumed here (table_types_ok) and proved in unit codec / Kani.
 
 #[verifier::external_body]
-#[derive(PartialEq, Eq, Hash)]
+#[derive(Clone, Copy, PartialEq, Eq, Hash)]
 pub struct Address { _p: () }
 
-impl Clone for Address {
-    #[verifier::external_body]
-    fn clone(&self) -> (r: Self) ensures r == *self { unimplemented!() }
-}
-
 #[verifier::external_body]
-#[derive(PartialEq, Eq, Hash)]
+#[derive(Clone, Copy, PartialEq, Eq, Hash)]
 pub struct B256 { _p: () }
 
-impl Clone for B256 {
-    #[verifier::external_body]
-    fn clone(&self) -> (r: Self) ensures r == *self { unimplemented!() }
-}
-
 #[verifier::external_body]
-#[derive(PartialEq, Eq, Hash)]
+#[derive(Clone, Copy, PartialEq, Eq, Hash)]
 pub struct U256 { _p: () }
-
-impl Clone for U256 {
-    #[verifier::external_body]
-    fn clone(&self) -> (r: Self) ensures r == *self { unimplemented!() }
-}
 
 #[verifier::external_body]
 #[derive(PartialEq, Eq, Hash)]
@@ -517,4 +502,9 @@ impl U512ED {
     pub fn from_addr_u256(address: Address, mem_loc: U256) -> (r: Result<U512ED, VErr>)
         ensures r is Ok ==> r->Ok_0 == u512_key(address, mem_loc),
     { unimplemented!() }
+}
+
+impl B256 {
+    #[verifier::external_body]
+    pub const ZERO: B256 = B256 { _p: () };
 }
